@@ -163,72 +163,139 @@ def replay_pairs(recs):
 
 
 # ------------------------------------------------------------------ code -> spec
+class ViewsDisagree(Exception):
+    pass
+
+
+def live_prod(route, P, order, v, side):
+    """product of the LIVE object P (stored in `order`) with the integer operand v, through `route`.
+    Array routes read the object's buffer the way a caller would (np.asarray), reordered by the
+    storage order the caller asked for -- not by whatever flag the object carries now."""
+    v = np.array(v, dtype=float)
+    arr = as_H(np.asarray(P, dtype=float), order)
+    if side == "R":     # P * v
+        if route == "product":
+            return np.asarray(P.product(v), dtype=float)
+        if route == "mul":
+            return np.asarray(P * v, dtype=float)
+        if route == "matmul":
+            return np.asarray(P @ v, dtype=float)
+        if route == "q_prod":
+            return np.asarray(ori.q_prod(arr.copy(), v.copy()), dtype=float)
+        if route == "mult_L":
+            return np.asarray(P.mult_L() @ v, dtype=float)
+        if route == "mult_R":
+            return np.asarray(nv(v).mult_R() @ arr, dtype=float)
+    else:               # v * P
+        V = nv(v)
+        if route == "product":
+            return np.asarray(V.product(P), dtype=float)
+        if route == "mul":
+            return np.asarray(V * P, dtype=float)
+        if route == "matmul":
+            return np.asarray(V @ P, dtype=float)
+        if route == "q_prod":
+            return np.asarray(ori.q_prod(v.copy(), arr.copy()), dtype=float)
+        if route == "mult_L":
+            return np.asarray(V.mult_L() @ arr, dtype=float)
+        if route == "mult_R":
+            return np.asarray(P.mult_R() @ v, dtype=float)
+    raise KeyError(route)
+
+
+def observe(P, order):
+    """the register as the object exposes it: through the component properties and through the
+    buffer; the two views must agree (they are the same quaternion)"""
+    props = np.array([P.w, P.x, P.y, P.z], dtype=float)
+    arr = as_H(np.asarray(P, dtype=float), order)
+    attr = as_H(np.asarray(P.A, dtype=float), order)
+    if not (np.array_equal(props, arr) and np.array_equal(props, attr)):
+        raise ViewsDisagree("properties %s, buffer %s, .A %s" % (props, arr, attr))
+    return props
+
+
 def record_traces(seed, n, length, devs):
-    """Random driver over real non-versor Quaternion objects with integer components
-    (floats exact => alpha is the identity on integers); one event per call at return."""
+    """Random driver over LIVE non-versor Quaternion objects with integer / dyadic components
+    (floats exact => alpha is exact); one event per public call, logged at its return with the
+    register as observed.  Returns (traces, failures)."""
     r = core.rng(seed, "c09-traces")
-    units = [u for u in [(a, b, c, d) for a in (-1, 0, 1) for b in (-1, 0, 1) for c in (-1, 0, 1) for d in (-1, 0, 1)]
-             if sum(abs(x) for x in u) in (1, 4)]
     gens = [u for u in [(a, b, c, d) for a in (-1, 0, 1) for b in (-1, 0, 1) for c in (-1, 0, 1) for d in (-1, 0, 1)] if any(u)]
-    traces = []
+    traces, fails = [], []
     for i in range(n):
         start = gens[r.integers(len(gens))]
         order = "HS"[r.integers(2)]
-        num = np.array(start, dtype=float)
+        P = nv(start, order)
         den = 1
         events = []
-        for k in range(length):
-            choice = r.integers(6)
-            ev = {"route": "none"}
-            val = num / den
-            if choice <= 1:
-                v = gens[r.integers(len(gens))]
-                route = ROUTES[r.integers(len(ROUTES))]
-                if choice == 0:
-                    out = prod(route, val, v, order)
-                    ev.update(act="MulRight", route=route, v=list(v))
+        acts = []
+        try:
+            for k in range(length):
+                choice = int(r.integers(8))
+                ev = {"route": "none"}
+                if choice <= 1:
+                    v = gens[r.integers(len(gens))]
+                    route = ROUTES[r.integers(len(ROUTES))]
+                    out = live_prod(route, P, order, v, "R" if choice == 0 else "L")
+                    ev.update(act="MulRight" if choice == 0 else "MulLeft", route=route, v=list(v))
+                    P = nv(out, order)
+                elif choice == 2:
+                    route = ["conjugate", "conj", "q_conj"][r.integers(3)]
+                    if route == "q_conj":
+                        out = np.asarray(ori.q_conj(as_H(np.asarray(P, dtype=float), order).copy()), dtype=float)
+                    else:
+                        out = as_H(getattr(P, route), order)
+                    ev.update(act="Conjugate", route=route)
+                    P = nv(out, order)
+                elif choice == 3:
+                    val = observe(P, order)
+                    n2 = float(np.dot(val, val)) * den * den
+                    s = round(np.sqrt(n2))
+                    if s * s != n2 or n2 > 64 or den != 1:
+                        continue
+                    out = as_H(P.inverse, order)
+                    ev.update(act="Invert", s=int(s))
+                    den = int(round(n2))
+                    P = nv(out, order)
+                elif choice == 4:
+                    val = observe(P, order)
+                    order = "S" if order == "H" else "H"
+                    P = nv(val, order)
+                    ev.update(act="Restore")
+                elif choice == 5:
+                    how = ["copy", "view", "slice", "np.copy"][r.integers(4)]
+                    P = {"copy": lambda: P.copy(), "view": lambda: P.view(), "slice": lambda: P[:],
+                         "np.copy": lambda: np.copy(P, subok=True)}[how]()
+                    ev.update(act="Derive", route=how)
+                elif choice == 6:
+                    val = observe(P, order)
+                    n2 = float(np.dot(val, val)) * den * den
+                    s = round(np.sqrt(n2))
+                    if s * s != n2 or s > 64 or den != 1 or s == 0:
+                        continue
+                    P.normalize()
+                    den = int(s)
+                    ev.update(act="Normalize")
                 else:
-                    out = prod(route, v, val, "H") if route != "mult_R" else prod(route, v, val, "H")
-                    ev.update(act="MulLeft", route=route, v=list(v))
-                num, den = out * den, den
-            elif choice == 2:
-                route = ["conjugate", "conj", "q_conj"][r.integers(3)]
-                if route == "q_conj":
-                    out = np.asarray(ori.q_conj(val.copy()), dtype=float)
-                else:
-                    out = as_H(getattr(nv(val, order), route), order)
-                ev.update(act="Conjugate", route=route)
-                num = out * den
-            elif choice == 3:
-                # only registers whose norm is an integer keep the (as-built) inverse rational
-                n2 = float(np.dot(val, val))
-                s = round(np.sqrt(n2))
-                if s * s != n2 or n2 > 64:
-                    continue
-                out = as_H(nv(val, order).inverse, order)
-                ev.update(act="Invert", s=int(s))
-                # out = k/m exactly for small integers: find the common denominator
-                d2 = int(round(n2)) * den
-                num, den = np.rint(out * d2), d2
-                if maxdiff(num / den, out) > 1e-15:
-                    continue
-            elif choice == 4:
-                order = "S" if order == "H" else "H"
-                P = nv(val, order)
-                num = np.array([P.w, P.x, P.y, P.z]) * den
-                ev.update(act="Restore")
-            else:
-                P = nv(val, order)
-                num = np.array([P.w, P.x, P.y, P.z]) * den
-                ev.update(act="Observe")
-            if np.max(np.abs(num)) > 2 ** 20 or den > 2 ** 10 or not np.all(num == np.rint(num)):
-                break
-            ev.update(num=[int(x) for x in num], den=int(den), ord=order)
-            events.append(ev)
+                    ev.update(act="Observe")
+                acts.append(ev["act"] + ":" + ev["route"])
+                val = observe(P, order)
+                num = val * den
+                if np.max(np.abs(num)) > 2 ** 20 or not np.all(num == np.rint(num)):
+                    break
+                ev.update(num=[int(x) for x in num], den=int(den), ord=order)
+                events.append(ev)
+        except ViewsDisagree as e:
+            fails.append(("C09|live-object|views-disagree-after-%s" % acts[-1].split(":")[0], {"start": start, "order": order, "actions": acts, "err": str(e)}))
+            continue
+        except Exception as e:  # noqa
+            fails.append(("C09|live-object|raises-%s" % type(e).__name__, {"start": start, "order": order, "actions": acts, "err": str(e)[:200]}))
+            continue
         if events:
-            traces.append({"start": list(start), "ord": events[0]["ord"] if events[0]["act"] != "Restore" else ("S" if events[0]["ord"] == "H" else "H"),
-                           "events": events})
-    return traces
+            o0 = events[0]["ord"]
+            if events[0]["act"] == "Restore":
+                o0 = "S" if o0 == "H" else "H"
+            traces.append({"start": list(start), "ord": o0, "events": events})
+    return traces, fails
 
 
 def run(chk):
@@ -252,7 +319,10 @@ def run(chk):
         pairs = [r for i, r in enumerate(sorted(pairs, key=lambda r: (r["p"], r["v"]))) if i % 4 == chk.seed % 4]
     core.merge(chk, core.pmap(replay_triples, trip))
     core.merge(chk, core.pmap(replay_pairs, pairs))
-    traces = record_traces(chk.seed, 400 if quick else 4000, 10, devs)
+    traces, tfails = record_traces(chk.seed, 600 if quick else 6000, 10, devs)
+    for sig, rec in tfails:
+        chk.fail(sig, rec)
+    chk.evaluations += sum(len(tr["events"]) for tr in traces)
     chk.notes["as_built_deviations"] = devs
     dev_const = "InverseDividesByNorm" if "inverse_divides_by_norm" in devs else "NoDeviation"
     core.validate_traces(chk, "TraceHamilton", core.spec_cfg("TraceHamilton", DEVIATIONS=dev_const), traces, "hamilton",
